@@ -1103,8 +1103,11 @@ impl<'a> Evaluator<'a> {
                 if (full == "String::from" || full == "String::new" || full == "String::default" || full.ends_with("::to_owned") || full == "Box::new" || full == "Some" && false) && args.len() <= 1 {
                     return Ok(args.into_iter().next().unwrap_or(Val::Str(String::new())));
                 }
-                if full == "Vec::new" || full.starts_with("Vec::<") && full.ends_with("::new") {
+                if full == "Vec::new" || full == "Vec::with_capacity" || full == "Vec::default" || full == "VecDeque::new" || full.starts_with("Vec::<") && (full.ends_with("::new") || full.ends_with("::with_capacity")) {
                     return Ok(Val::List(vec![]));
+                }
+                if full == "String::with_capacity" {
+                    return Ok(Val::Str(String::new()));
                 }
                 match name.as_str() {
                     "Some" | "Ok" | "Err" => Ok(Val::Ctor(name, args, BTreeMap::new())),
@@ -1351,9 +1354,10 @@ impl<'a> Evaluator<'a> {
                     match name.as_str() {
                         "iter" | "into_iter" | "iter_mut" | "clone" | "to_owned" | "as_ref" | "as_slice" | "to_vec" => return Ok(recv.clone()),
                         "len" => return Ok(Val::int(items.len() as i128)),
-                        "chunks" => {
+                        "chunks" | "chunks_exact" => {
                             let n = match self.eval(&mc.args[0], env)? { Val::Int { v, .. } if v > 0 => v as usize, o => return Err(format!("chunks({})", o.show())) };
-                            return Ok(Val::List(items.chunks(n).map(|c| Val::List(c.to_vec())).collect()));
+                            // chunks_exact leaves out a final chunk that is shorter than n
+                            return Ok(Val::List(items.chunks(n).filter(|c| name == "chunks" || c.len() == n).map(|c| Val::List(c.to_vec())).collect()));
                         }
                         "is_empty" => return Ok(Val::Bool(items.is_empty())),
                         "first" => return Ok(items.first().cloned().map(Val::some).unwrap_or(Val::none())),
@@ -1575,6 +1579,23 @@ impl<'a> Evaluator<'a> {
                                     _ => st.contains(o),
                                 }));
                             }
+                            // a character predicate: `s.starts_with(|c: char| c.is_lowercase())`, `char::is_uppercase`
+                            if matches!(&mc.args[0], Expr::Closure(_) | Expr::Path(_)) {
+                                let probe: Vec<char> = match name.as_str() {
+                                    "starts_with" => st.chars().next().into_iter().collect(),
+                                    "ends_with" => st.chars().last().into_iter().collect(),
+                                    _ => st.chars().collect(),
+                                };
+                                let mut any = false;
+                                for ch in probe {
+                                    match self.apply_closure(&mc.args[0], &[Val::Char(ch)], env)? {
+                                        Val::Bool(true) => { any = true; break }
+                                        Val::Bool(false) => {}
+                                        o => return Err(format!("character predicate returned {}", o.show())),
+                                    }
+                                }
+                                return Ok(Val::Bool(any));
+                            }
                         }
                         "is_empty" => return Ok(Val::Bool(st.is_empty())),
                         "len" => return Ok(Val::int(st.len() as i128)),
@@ -1642,6 +1663,8 @@ impl<'a> Evaluator<'a> {
                 match name.as_str() {
                     "unwrap_or_default" if is_none => Ok(Val::List(vec![])),
                     "unwrap" | "expect" if is_some => Ok(inner.unwrap()),
+                    "unwrap" | "expect" if matches!(&recv, Val::Ctor(n, p, _) if n == "Ok" && p.len() == 1) => match recv { Val::Ctor(_, mut p, _) => Ok(p.remove(0)), _ => unreachable!() },
+                    "unwrap" | "expect" if is_none || matches!(&recv, Val::Ctor(n, _, _) if n == "Err") => Err(format!("{}() on {} (the code would panic here)", name, recv.show())),
                     "to_string" if matches!(recv, Val::Int { input: false, .. } | Val::Bool(_)) => Ok(Val::Str(match &recv {
                         Val::Int { v, .. } => v.to_string(),
                         Val::Bool(b) => b.to_string(),
